@@ -179,8 +179,8 @@ def kernel_law(kid, p1, p2, x, y, g1, g2):
     r, r1, r2 = true_rho(kid, p1, p2, x)
     ty, t1, t2 = kernel_tols(kid, p1, p2, x, y, g1, 0.0 if g2 is None else g2)
     bad = []
-    if not math.isfinite(y):
-        return 'kernel %s(%r,%r)(%r) = %r is not finite' % (KNAMES[kid], p1, p2, x, y)
+    if not all(math.isfinite(v) for v in (y, g1, 0.0 if g2 is None else g2)):
+        return 'kernel %s(%r,%r)(%r) = %r with autograd slopes %r, %r: not finite' % (KNAMES[kid], p1, p2, x, y, g1, g2)
     if abs(mpf(y) - r) > 2 * ty:
         bad.append('value %r differs from the closed form %s' % (y, r))
     if x == 0 and abs(y) > 2 * ty:
@@ -243,13 +243,19 @@ def run_exact(ctx, pp, torch):
         ctx.case(('exact', kid, p1, p2, x), nontrivial=x != 0, branch=br,
                  sample=dict(kernel=KNAMES[kid], p1=p1, p2=p2, x=x, impl=out) if i in (12, 70) else None)
         meta.append(dict(kind='kernel', kid=kid, p1=p1, p2=p2, x=x, impl=out, how=how))
-        lits.append('(%d%%nat, %d%%nat, %s, %s, %s, %s)' % (i, kid, qlit(p1), qlit(p2), qlit(x), qlist(out)))
+        if not all(math.isfinite(v) for v in out):
+            # the model never returns a non-finite number: a disagreement without asking Coq
+            ctx.mismatch('kernel-exact', meta[-1])
+            if x >= 0:
+                ctx.violation('kernel:%s:non-finite' % KNAMES[kid], '%s(%r,%r)(%r) returns %r' % (KNAMES[kid], p1, p2, x, out), dict(kind='kernel-value', kid=kid, p1=p1, p2=p2, x=x))
+        else:
+            lits.append('(%d%%nat, %d%%nat, %s, %s, %s, %s)' % (i, kid, qlit(p1), qlit(p2), qlit(x), qlist(out)))
         # the property's own clauses, checked on the implementation
         if x < 0 and how == 'value':
             ctx.violation('Scale.forward:negative-input:accepted' if kid == 6 else 'kernel:%s:negative-input:accepted' % KNAMES[kid],
                           '%s(%r).forward(%r) returns %r instead of rejecting the negative input' % (KNAMES[kid], p1, x, out[1]),
                           dict(kind='kernel-neg', kid=kid, p1=p1, p2=p2, x=x))
-        if x >= 0 and how == 'value':
+        if x >= 0 and how == 'value' and all(math.isfinite(v) for v in out):
             why = kernel_law(kid, p1, p2, x, out[1], out[2], out[3] if kid != 6 else None)
             if why:
                 ctx.violation('kernel:%s:closed-form' % KNAMES[kid], why, dict(kind='kernel-value', kid=kid, p1=p1, p2=p2, x=x))
@@ -323,7 +329,7 @@ def run_kernel_enclosure(ctx, pp, torch):
                               dict(kind='kernel-value', kid=kid, p1=p1, p2=p2, x=xs[0]))
                 continue
             prev = None
-            for j in sorted(range(len(xs)), key=lambda j: xs[j]):         # monotone on the implementation
+            for j in sorted((j for j in range(len(xs)) if math.isfinite(ys[j])), key=lambda j: xs[j]):   # monotone on the implementation
                 ty = kernel_tols(kid, p1, p2, xs[j], ys[j], 0, 0)[0]
                 if prev is not None and ys[j] < prev[1] - 2 * ty - 2 * prev[2]:
                     ctx.violation('kernel:%s:monotone' % KNAMES[kid], '%s(%r,%r): rho(%r)=%r > rho(%r)=%r' % (KNAMES[kid], p1, p2, prev[0], prev[1], xs[j], ys[j]),
@@ -338,6 +344,10 @@ def run_kernel_enclosure(ctx, pp, torch):
                          sample=dict(kernel=KNAMES[kid], p1=p1, p2=p2, x=x, value=y, d1=g1, d2=g2) if i % 37 == 5 else None)
                 m = dict(kind='kernel-value', kid=kid, p1=p1, p2=p2, x=x, y=y, g1=g1, g2=g2)
                 meta.append(m)
+                if not all(math.isfinite(v) for v in (y, g1, 0.0 if g2 is None else g2)):
+                    ctx.mismatch('kernel-enclosure', m)
+                    ctx.violation('kernel:%s:non-finite' % KNAMES[kid], '%s(%r,%r)(%r) = %r, slopes %r %r' % (KNAMES[kid], p1, p2, x, y, g1, g2), m)
+                    continue
                 why = kernel_law(kid, p1, p2, x, y, g1, g2)
                 if why:
                     ctx.violation('kernel:%s:closed-form' % KNAMES[kid], why, m)
@@ -418,8 +428,9 @@ def run_enclosure_shared(pid, imports, cases, prec=200, per_file=12, timeout_goa
             conj = ' /\\ '.join('Rabs (nth %d r 0 - %s) <= %s' % (i, rlit(v), rlit(t)) for i, v, t in comps)
         return ('Goal %s let r := %s in %s.\nProof. first [ timeout %d (solve [ enclose_shared %d%%positive ]); idtac "OK" "%d" | idtac "BAD" "%d" ]. Abort.\n'
                 % (c['lets'], c['expr'], conj, timeout_goal, prec, code, code))
-    files = [('%s1_%03d' % (tag, k), hdr + ''.join(goal(c, c['comps'], c['idx'], False) for c in cases[j:j + per_file]))
-             for k, j in enumerate(range(0, len(cases), per_file))]
+    nfiles = max(1, -(-len(cases) // per_file))            # round-robin: heavy (large d, masked) cases spread evenly
+    files = [('%s1_%03d' % (tag, k), hdr + ''.join(goal(c, c['comps'], c['idx'], False) for c in cases[k::nfiles]))
+             for k in range(nfiles)]
     res = run_case_files(pid, files, timeout=per_file * timeout_goal + 300)
     ok, notok, broken = set(), set(), []
     for name, (rc, out) in res.items():
@@ -432,9 +443,10 @@ def run_enclosure_shared(pid, imports, cases, prec=200, per_file=12, timeout_goa
     bad, undecided = [], []
     if notok:
         goals, enc = [], {}
-        for idx in sorted(notok):
+        for idx in sorted(notok)[:32]:                 # enough to name failing cases; the rest stay undecided
             c = byidx[idx]
-            for comp in c['comps']:
+            comps = c['comps'] if len(c['comps']) <= 6 else c['comps'][:3] + c['comps'][3::max(1, (len(c['comps']) - 3) // 3)][:3]
+            for comp in comps:
                 code = idx * 1000 + comp[0]
                 enc[code] = (idx, comp[0])
                 goals.append(goal(c, [comp], code, True))
@@ -581,6 +593,9 @@ def corrector_tensor(ctx, pp, torch, spec, Rb, Jb, batch, cases, meta):
         off2 = g2s is not None and not thr and (not math.isfinite(g2s[i]) or abs(mpf(g2s[i]) - r2) > 1e-9 * abs(r2) + 2 * t2 + 1e-300)
         if off1 or off2:
             ctx.violation('autograd-contract:%s' % label, "compute_grads returned rho'=%r rho''=%r at x=%r, true values %s %s" % (g1s[i], None if g2s is None else g2s[i], xs[i], r1, r2), base)
+    if not all(math.isfinite(v) for v in g1s + (g2s or [])):
+        ctx.mismatch('corrector-grads', base)        # the model's g1, g2 are real numbers
+        return
     outs = {}
     for cname in ('FastTriggs', 'Triggs'):
         out = run_corrector(pp, torch, spec, cname, Rt, Jt)
